@@ -152,6 +152,9 @@ class PythonCryptoEndpoint(CryptoEndpoint, EndpointListener):
 
         if not self.incoming_crypto(cell):
             return
+        if not cell.message:
+            self.logger.debug("Dropping cell (empty message)")
+            return
 
         self.logger.debug("Got cell(%s) from circuit %d (sender %s)", cell.message[0], circuit_id, source_address)
 
